@@ -96,16 +96,36 @@ def correspondence(ctx):
                         if spec.pos is not None:
                             spec.pos = (D, N)
                     st = spec.build()
-                    built, C = 1, spec.C
-                    if only is None:
-                        C = st.num_channels
+                    built, C = 1, spec.C     # the DOCUMENTED channel count of this configuration (from the constructor arguments)
                 except ValueError:
                     built = 0
             ctx.count(("ctor", name, D))
             ctx.compare(f"{name} constructor dimension guard", [built], [model_ok], exact=True, cell=("ctor", name, D))
             if not built:
                 continue
-            C = st.num_channels
+            if name != "Wave":
+                ctx.compare(f"{name}.num_channels = documented channel count of the configuration", [int(st.num_channels)], [int(C)], exact=True,
+                            cell=("channels", name, D), detail={"kwargs": {k: str(v) for k, v in spec.kwargs.items()}})
+                # the channel count depends on the options (single_channel): every combination for D >= 2
+                if D >= 2 and only is None:
+                    from .c01 import option_combos
+                    for forced in option_combos(name, D, N, ctx.seed + idx):
+                        if "single_channel" not in forced:
+                            break
+                        S.FORCED_FLAGS.clear()
+                        S.FORCED_FLAGS.update(forced)
+                        try:
+                            sp2 = R[name](np.random.default_rng(ctx.seed + idx), D, N, 1)
+                        finally:
+                            S.FORCED_FLAGS.clear()
+                        st2 = sp2.build()
+                        for shape in ((sp2.C,) + (N,) * D, (D + 1 - sp2.C,) + (N,) * D):
+                            impl, _ = call_outcome(st2, shape)
+                            model = d.ask(f"accepts {sp2.C} {D} {N} {len(shape)} " + " ".join(map(str, shape)))[0]
+                            ctx.count(("call-options", name, D, bool(forced.get("single_channel"))))
+                            ctx.compare(f"{name}.__call__ accept/reject (options {forced})", [1 if impl == "accept" else 0], [model], exact=True,
+                                        cell=("call-options", name, D), detail={"shape": shape, "outcome": impl, "documented_channels": sp2.C,
+                                                                               "kwargs": {k: str(v) for k, v in sp2.kwargs.items()}})
             for shape in malformed_shapes(C, D, N):
                 impl, oshape = call_outcome(st, shape)
                 model = d.ask(f"accepts {C} {D} {N} {len(shape)} " + " ".join(map(str, shape)))[0]
@@ -264,13 +284,14 @@ def correspondence(ctx):
     ctx.exhaustive = True
 
 
-def probe_shape(name, D, shape):
+def probe_shape(name, D, shape, options=None):
     ex = _ex()
     R = S.registry()
     rng = np.random.default_rng(0)
     N = 6
     rep = None
     forced = False
+    spec = None
     if name.startswith("RepeatedStepper:"):
         _, name, rep = name.split(":")
     if name.startswith("ForcedStepper:"):
@@ -281,8 +302,16 @@ def probe_shape(name, D, shape):
     elif name == "Poisson":
         st = ex.poisson.Poisson(D, 2.0, N)
     else:
-        st = R[name](rng, D, N, 1).build()
-    C = getattr(st, "num_channels", 1)
+        S.FORCED_FLAGS.clear()
+        S.FORCED_FLAGS.update(options or {})
+        try:
+            spec = R[name](rng, D, N, 1)
+        finally:
+            S.FORCED_FLAGS.clear()
+        st = spec.build()
+    # the configured channel count is the DOCUMENTED one of the constructor arguments (registry), not whatever the
+    # built object says about itself
+    C = spec.C if spec is not None else getattr(st, "num_channels", 1)
     if rep is not None:
         st = ex.RepeatedStepper(st, int(rep))
     good = (C,) + (N,) * D
@@ -358,17 +387,30 @@ def oracle(ctx, deep):
                     st = ex.stepper.Wave(D, 2.0, N, 0.1)
                 elif inner == "Poisson":
                     st = ex.poisson.Poisson(D, 2.0, N)
+                    combos = [None]
                 else:
-                    st = S.registry()[inner](np.random.default_rng(0), D, N, 1).build()
+                    from .c01 import option_combos
+                    combos = option_combos(inner, D, N, 0) if D >= 2 else [None]
+                    combos = [c for c in combos if c and "single_channel" in c] or [None]
             except Exception:
                 continue
-            C = getattr(st, "num_channels", 1)
-            for shape in malformed_shapes(C, D, N):
-                r = probe_shape(name, D, shape)
-                ctx.count(("oracle", name, D, tuple(shape)))
-                if not r["ok"]:
-                    fails.append({"key": f"C20:shape:{name}", "what": f"{name} (D={D}) given shape {tuple(shape)}: {r['outcome']}, expected {r['expected']}",
-                                  "probe": "shape", "args": {"name": name, "D": D, "shape": list(shape)}, "observed": r})
+            if inner in ("Wave", "Poisson"):
+                combos = [None]
+            for options in combos:
+                if options is None:
+                    C = 2 if inner == "Wave" else (1 if inner == "Poisson" else S.registry()[inner](np.random.default_rng(0), D, N, 1).C)
+                else:
+                    C = 1 if options.get("single_channel") else D
+                hit = False
+                for shape in malformed_shapes(C, D, N):
+                    r = probe_shape(name, D, shape, options)
+                    ctx.count(("oracle", name, D, tuple(shape), repr(options)))
+                    if not r["ok"]:
+                        fails.append({"key": f"C20:shape:{name}", "what": f"{name} (D={D}, options {options}) given shape {tuple(shape)}: {r['outcome']}, expected {r['expected']} (configured {r['configured']})",
+                                      "probe": "shape", "args": {"name": name, "D": D, "shape": list(shape), "options": options}, "observed": r})
+                        hit = True
+                        break
+                if hit:
                     break
     seen, out = set(), []
     for f in fails:
